@@ -541,6 +541,11 @@ func analyse(c *gen.Case, r *ref.Result, storeSlow, loadSlow, prefSlow bool) *an
 			if in.IsCondBr() && slowFault {
 				a.shadowBranchSlow = true
 			}
+			if (in.IsCondBr() || in.IsJump()) && a.anyMem {
+				// MVP-6.0: the flush of a control transfer behind the fault resets the
+				// unit in which the faulting instruction still waits (finding F05)
+				a.memThenFlush = true
+			}
 			if in.Op == "ret" || in.IsJump() {
 				break
 			}
